@@ -156,15 +156,17 @@ def fut_exception_setter(ip, f, e):
 
 
 C01_KEYS = ("J1_", "no_child_is_left", "scope_is_closed", "child_removed_from", "host_is_woken", "TaskHandle", "callback_never_raises", "entered_and_scope_active", "empty_group_with")
-C02_KEYS = ("J2_", "body_exception", "a_failing_body", "clean_exit_records", "raised_group", "without_collected_errors", "a_cancellation_is_absorbed", "a_body_exception_does_not_vanish", "returns_normally_only_when", "child_error_is_collected", "cancels_the_siblings", "a_cancelled_child_adds_no_error", "a_child_that_returned", "collected_exceptions_are_only_appended")
+C02_KEYS = ("J2_", "starts_unshielded", "body_exception", "a_failing_body", "clean_exit_records", "raised_group", "without_collected_errors", "a_cancellation_is_absorbed", "a_body_exception_does_not_vanish", "returns_normally_only_when", "child_error_is_collected", "cancels_the_siblings", "a_cancelled_child_adds_no_error", "a_child_that_returned", "collected_exceptions_are_only_appended")
 C07_KEYS = ("before_started", "without_started", "after_started", "after_the_starter_was_cancelled", "started", "start")
 
 
 def tg_props_of(name):
     tail = name.split("/", 1)[-1]
-    if any(k in tail for k in C07_KEYS) and not any(k in tail for k in ("entered",)):
-        return {"C07"} | ({"C02"} if "after_the_starter_was_cancelled" in tail or "after_started" in tail else set())
-    if any(k in tail for k in C01_KEYS):
+    if "task_done" in name and any(k in tail for k in ("before_started", "without_started", "after_started", "after_the_starter_was_cancelled")):
+        return {"C02", "C07"}  # routing of a child's outcome: what surfaces where (C02) and the start() handshake (C07)
+    if name.startswith(("TaskGroup.start", "_AsyncioTaskStatus.")):
+        return {"C07"}
+    if name.startswith("TaskHandle.") or any(k in tail for k in C01_KEYS):
         return {"C01"}
     if any(k in tail for k in C02_KEYS):
         return {"C02"}
@@ -411,6 +413,9 @@ class AExitUnit(TGUnit):
         self.private_scopes = (ws,)
         if self.after_record is None:
             self.snapshot_record(ip)  # first evaluation = loop entry: the state after the first (suspension-free) part
+            # the wait starts unshielded: a cancellation of an enclosing scope must be able to reach the waiting host
+            # (it is shielded only after the first one was caught, #695); asked once, at loop entry
+            ip.ctx.oblige("TaskGroup.__aexit__@wait/post:the_wait_for_the_children_starts_unshielded", z3.Not(S.shield(h, ws)), "post")
         E0 = self.entry
         out = [(n, t) for n, t in TG.inv_terms(h, s, cur)]
         out += [
@@ -622,7 +627,7 @@ class TaskDoneUnit(TGBase, FunctionUnit):
         if k == 0:  # the child returned normally
             ip.ctx.oblige(f"{nm}/post:a_child_that_returned_adds_no_error", unchanged_list, "post")
             if tsf is not None:
-                ip.ctx.oblige(f"{nm}/post:returned_without_started.reported_to_start_only", z3.Implies(pending_status, z3.And(fstate(post, tsf.t) == EXC, z3.Not(group_cancelled_now))), "post")
+                ip.ctx.oblige(f"{nm}/post:returned_without_started.reported_to_start_only_as_an_error_that_is_not_a_cancellation", z3.Implies(pending_status, z3.And(fstate(post, tsf.t) == EXC, ekind(post, post.f("Future", "exc", tsf.t)) == kind_id("Exception"), z3.Not(group_cancelled_now))), "post")
             ip.ctx.oblige(f"{nm}/post:a_child_that_returned_does_not_cancel_the_group", z3.Not(group_cancelled_now), "post")
         elif k == 1:  # the child raised a non-cancellation exception
             to_group = exc_list_grew_by(pre, post, s, [child_exc])
@@ -637,7 +642,7 @@ class TaskDoneUnit(TGBase, FunctionUnit):
         else:  # the child was cancelled
             ip.ctx.oblige(f"{nm}/post:a_cancelled_child_adds_no_error", unchanged_list, "post")
             if tsf is not None:
-                ip.ctx.oblige(f"{nm}/post:cancelled_before_started.reported_to_start_only", z3.Implies(pending_status, z3.And(fstate(post, tsf.t) == EXC, z3.Not(group_cancelled_now))), "post")
+                ip.ctx.oblige(f"{nm}/post:cancelled_before_started.the_cancellation_itself_is_reported_to_start_only", z3.Implies(pending_status, z3.And(fstate(post, tsf.t) == EXC, post.f("Future", "exc", tsf.t) == child_exc, z3.Not(group_cancelled_now))), "post")
 
     def child_exc_ref(self, ip):
         for ev in ip.ctx.events:
@@ -657,7 +662,9 @@ def _task_exception_recording(ip, t):
         e = lib.sym_exc(ip, "child_exc", kinds=["Exception", "BaseException", "BaseExceptionGroup", "KeyboardInterrupt"])
         ip.ctx.events.append(("child-exc", lib.exc_ref(ip, e)))
         return e
-    raise PyExc(lib.new_cancelled(ip))
+    e = lib.new_cancelled(ip)
+    ip.ctx.events.append(("child-exc", lib.exc_ref(ip, e)))
+    raise PyExc(e)
 
 
 lib.MODEL_METHODS["Task"]["exception"] = _task_exception_recording
